@@ -957,4 +957,70 @@ example : Lang .args [.ident ['f'], .leftParen, .ident ['x'], .comma, .leftBrack
 phrase of the grammar's `Chain` … and indeed the parser model rejects it -/
 example : Parse.parseTokens 200 [.ident ['a'], .intLit 1, .ident ['b']] = .err := by rfl
 
+/-! ## 9. No lexer state between tokens: literals in sequence decode as they do alone -/
+
+inductive QKind where
+  | str | bytes | fmt
+  deriving DecidableEq, Repr
+
+/-- a quoted literal: its kind (plain / `B` / `F`), delimiter and items -/
+structure QLit where
+  kind : QKind
+  e : Char
+  its : List StrItem
+
+def QLit.render (l : QLit) : List Char :=
+  (match l.kind with | .str => [] | .bytes => ['B'] | .fmt => ['F']) ++ l.e :: renderBody l.its ++ [l.e]
+
+def QLit.WF (l : QLit) : Prop :=
+  (l.e = '\'' ∨ l.e = '"') ∧ BodyOK l.e l.its ∧ ∃ vs, denoteBody l.its = some vs
+
+theorem lex_space (cs : List Char) : lex (' ' :: cs) = lex cs := by
+  have : lexStep ' ' cs = ⟨[], cs, false⟩ := rfl
+  rw [lex_of_step _ _ _ _ this]; rfl
+
+/-- what follows a literal does not influence its token, and the literal does not influence what follows -/
+theorem lex_literal_append (l : QLit) (h : l.WF) (rest : List Char) :
+    lex (l.render ++ rest) = lex l.render ++ lex rest := by
+  obtain ⟨he, hok, vs, hden⟩ := h
+  obtain ⟨kind, e, its⟩ := l
+  cases kind
+  · have h1 := string_escape_exact e he its hok vs hden rest
+    have h2 := string_escape_exact e he its hok vs hden []
+    simp only [QLit.render, List.nil_append, List.cons_append, List.append_assoc] at *
+    rw [h1, h2, lex_nil]; rfl
+  · have h1 := bytes_literal_token e he its hok vs hden rest
+    have h2 := bytes_literal_token e he its hok vs hden []
+    simp only [QLit.render, List.nil_append, List.cons_append, List.append_assoc] at *
+    rw [h1, h2, lex_nil]; rfl
+  · have h1 := format_literal_token e he its hok vs hden rest
+    have h2 := format_literal_token e he its hok vs hden []
+    simp only [QLit.render, List.nil_append, List.cons_append, List.append_assoc] at *
+    rw [h1, h2, lex_nil]; rfl
+
+/-- **`lex_tokens_independent`**: lexing a sequence of string / bytes / format-string literals
+(separated by blanks) yields exactly the tokens each literal yields when lexed alone — the lexer
+model carries no state from one token to the next (in particular no `\xHH` offsets) -/
+theorem lex_tokens_independent (ls : List QLit) (h : ∀ l ∈ ls, l.WF) :
+    lex (ls.flatMap fun l => l.render ++ [' ']) = ls.flatMap fun l => lex l.render := by
+  induction ls with
+  | nil => simp [lex_nil]
+  | cons l ls ih =>
+    simp only [List.flatMap_cons, List.append_assoc, List.singleton_append]
+    rw [lex_literal_append l (h l (by simp)), lex_space, ih (fun l' hl' => h l' (by simp [hl']))]
+
+/-- non-vacuity, the shape of the seeded defect a5: `'\x41bc' B'é' ` — the bytes literal yields the
+tokens it yields alone whatever `\xHH` escapes precede it -/
+example :
+    let ls : List QLit := [⟨.str, '\'', [.hex ⟨4, false⟩ ⟨1, false⟩, .plain 'b', .plain 'c']⟩, ⟨.bytes, '\'', [.plain 'é']⟩]
+    lex (ls.flatMap fun l => l.render ++ [' ']) = ls.flatMap fun l => lex l.render := by
+  intro ls
+  apply lex_tokens_independent
+  intro l hl
+  simp [ls] at hl
+  rcases hl with rfl | rfl
+  · exact ⟨Or.inl rfl, by simp [BodyOK, ItemOK], _, rfl⟩
+  · exact ⟨Or.inl rfl, by simp [BodyOK, ItemOK], _, rfl⟩
+
+
 end Noulith.C15
